@@ -116,6 +116,13 @@ def observe_run(case):
     out_root = os.path.join(root, 'out')
     config = _config(out_root)
     clis = [_cli(i, c, aux) for i, c in enumerate(case['cmds'], 1)]
+    if case.get('prior'):
+        # a task of the same name ran earlier into the same output root (an earlier session, or a re-execution): its
+        # tokens are numbered from 51 so that anything left of them in the capture files of this run shows
+        try:
+            RunTask.from_clis('task', [_cli(50 + i, c, aux) for i, c in enumerate(case['prior'], 1)]).do(Env(), config)
+        except Exception:  # pylint: disable=broad-except
+            pass
     task = RunTask.from_clis('task', clis)
     obs = dict(status='NONE', raised=False, escaped=False, rcs=[], exc='')
     if case['mode'] == 'direct':
@@ -304,7 +311,7 @@ def _run_agrees(st, obs):
 def run_key(case, clauses):
     first_bad = next((c for c in case['cmds'] if c['exit'] != 0), None)
     shape = 'all-zero' if first_bad is None else 'cannot-start' if first_bad['exit'] is None else 'nonzero'
-    via = case.get('via', 'run')
+    via = case.get('via', 'run') + ('/rerun' if case.get('prior') else '')
     return 'C19/%s/%s/%s/%s' % (via, case['mode'], shape, '+'.join(sorted(set(clauses))))
 
 
@@ -519,6 +526,9 @@ def run_c19(ctx):
     for name, consts in run_cfgs:
         states = [st for st in _check_and_dump(ctx, wd, name, consts, RUN_INVS, ['Exec', 'Finish']) if st['status'] != 'PENDING']
         cases = [_state_to_run_case(st) for st in states]
+        for k, c in enumerate(cases):
+            if k % 3 == 1:           # same task name, same output root, after another run (one that failed half-way)
+                c['prior'] = [dict(exit=0, nout=1, nerr=1, how=''), dict(exit=3, nout=2, nerr=1, how='')]
         dbg('%s: %d terminal states' % (name, len(cases)))
         observations = pool.map(observe_run, cases, chunksize=8)
         dbg('%s executed' % name)
@@ -597,6 +607,9 @@ def run_c19(ctx):
             else:
                 cmds.append(dict(exit=rng.choice(codes), nout=rng.randint(0, 3), nerr=rng.randint(0, 3), how=''))
         cases.append(dict(op='run', mode='sched' if rng.random() < 0.3 else 'direct', cmds=cmds))
+        if rng.random() < 0.3:
+            cases[-1]['prior'] = [dict(exit=rng.choice([0, 0, 1]), nout=rng.randint(0, 2), nerr=rng.randint(0, 2), how='')
+                                  for _j in range(rng.randint(1, 3))]
     for _ in range(ctx.pick(700, 8000)):
         cmds = []
         for _j in range(rng.randint(0, 5)):
